@@ -20,6 +20,7 @@ never reached by the histories of the correspondence run).
 -- models: pkg/kfake/txns.go:pids.doEnd
 -- models: pkg/kfake/txns.go:pids.get
 -- models: pkg/kfake/txns.go:pids.updateTimer
+-- models: pkg/kfake/txns.go:pids.create
 -- models: pkg/kfake/txns.go:pidinfo.endTx
 The producer-state window is C29's `push` (proved there to refine the "last five accepted batches" spec).
 Core Lean only (linked into the driver). -/
@@ -239,7 +240,12 @@ def expireOne (s : State) : Option State :=
   | [] => none
   | c :: cs =>
     let m := cs.foldl (fun (a : Int × Prod) e => if e.2.txStart + e.2.timeout < a.2.txStart + a.2.timeout then e else a) c
-    some (endTx s m.1 (bump m.2) false)
+    if m.2.epoch ≥ 32766 then
+      -- epoch exhaustion: `bumpEpoch` allocates a new producer (fresh random id, unknown to the history's
+      -- clients) and forgets the old id; the timed out transaction is ended on the old producer state
+      let s1 := endTx s m.1 m.2 false
+      some { s1 with prods := s1.prods.filter (fun e => e.1 != m.1) }
+    else some (endTx s m.1 (bump m.2) false)
 
 def expire : Nat → State → State
   | 0, s => s
@@ -253,7 +259,11 @@ def expireAll (s : State) : State := expire (s.prods.length + 1) s
 def initx (s : State) (k timeout : Int) : State × Int × Int :=
   if timeout ≤ 0 || timeout > 900000 then (s, 50, -1)
   else match getProd s k with
-    | some pr => let pr' := bump pr; (setProd s k pr', 0, pr'.epoch)
+    | some pr =>
+      -- `pids.create` for a known transactional id: abort what the previous incarnation left open, then bump
+      let s1 := if pr.inTx then endTx s k pr false else s
+      let pr' := bump ((getProd s1 k).getD pr)
+      (setProd s1 k pr', 0, pr'.epoch)
     | none => (setProd s k { txnl := true, timeout := timeout }, 0, 0)
 
 /-- `doInitProducerID` KIP-360 path (request carries producer id and epoch). -/
